@@ -928,10 +928,18 @@ def f_gather_scatter(c):
         k = Contract('mem_gather' + ('_n' if len(P) == 3 else '_N'), ['C08', 'C09'], requires=req, ensures=ens, assigns=[], cxx=None)
         k.harness = {'pre': pre + ['%s a1;' % it.ct], 'args': args}
         return k
-    # scatter: active indices pairwise distinct (the property is silent about duplicates)
-    for i in range(W):
-        for j in range(i + 1, W):
-            req.append('!(%s && %s) || %s != %s' % (act(i), act(j), sidx(i), sidx(j)))
+    # scatter: active indices pairwise distinct (the property is silent about duplicates).  From 8 lanes on the 28+ pairwise
+    # constraints make the query slow: the active indices are required to be strictly increasing instead (a symmetry
+    # reduction that implies distinctness; reported as partial domain)
+    partial = None
+    if W >= 8:
+        for i in range(W - 1):
+            req.append('!(%s && %s) || %s < %s' % (act(i), act(i + 1), sidx(i), sidx(i + 1)))
+        partial = 'active indices strictly increasing (implies distinct); all values, all n'
+    else:
+        for i in range(W):
+            for j in range(i + 1, W):
+                req.append('!(%s && %s) || %s != %s' % (act(i), act(j), sidx(i), sidx(j)))
     ens = [('scatter element of lane %d' % i, '!%s || %s == %s' % (act(i), bits_of(ect, '%s[%s]' % (p, sidx(i))), t.lane(v, i))) for i in range(W)]
     for j in range(L):
         hit = ' || '.join('(%s && %s == %d)' % (act(i), sidx(i), j) for i in range(W))
@@ -940,6 +948,7 @@ def f_gather_scatter(c):
     k = Contract('mem_scatter' + ('_n' if len(P) == 4 else '_N'), ['C08', 'C09'], requires=req, ensures=ens,
                  assigns=['__CPROVER_object_whole(%s)' % p], cxx=None)
     k.harness = {'pre': pre + ['%s a1;' % t.ct, '%s a2;' % it.ct], 'args': args}
+    k.partial = partial
     return k
 
 
